@@ -107,3 +107,15 @@ Theorem C18_single_read_refuted :
   read_n 3 (content b) = Ok ([1; 2; 3], []) /\
   (exists b', br_read_full 3 b = Ok ([1; 2; 3], b') /\ content b' = []).
 Proof. exact read_once_refuted. Qed.
+
+(* ---- histories.  The MODEL has no state (sms_unmarshal / sms_remarshal are functions of the octets), so for the
+   model the statement "the result for a TPDU does not depend on what the process decoded before" holds by
+   construction - stated here so that the claim is visible; its content is on the implementation side: the harness
+   decodes every ordered pair (and some longer sequences) of a corpus with a well-formed and a malformed instance of
+   each of the eight structures / report flavours / directions / validity-period formats / address types in FRESH
+   processes and compares each observation with the same input decoded first (failure classes history/…,
+   history-panic/…). *)
+Theorem C18_history_independent :
+  forall (before after : list bytes) (x : bytes),
+    nth_error (run_history (before ++ x :: after)) (List.length before) = Some (sms_unmarshal x, sms_remarshal x).
+Proof. exact history_independent. Qed.
